@@ -11,9 +11,12 @@ OBLIGATIONS = [
     "C32/P_mod_inverse.v", "C32/P_crt.v", "C32/P_crt_reduced_refuted.v", "C32/P_mp_powm.v", "C32/P_powermod.v",
     "C32/P_boost_powermod_refuted.v", "C32/P_factorial.v", "C32/P_binomial.v", "C32/P_fibonacci_lucas.v",
     "C32/P_is_prime.v", "C32/P_factorisation.v", "C32/P_factor_trial_division.v", "C32/P_totient.v", "C32/P_mobius.v",
-    "C32/P_quadratic_residues.v", "C32/P_polygonal_number.v", "C32/P_polygonal_root.v", "C32/P_perfect_power_partial.v",
+    "C32/P_quadratic_residues.v", "C32/P_polygonal_number.v", "C32/P_polygonal_root.v", "C32/P_perfect_power.v", "C32/P_mp_root.v", "C32/P_prime_factors.v", "C32/P_mertens.v",
     "C32/P_is_nth_residue_refuted.v", "C32/P_is_nth_residue_zero_exponent.v", "C32/P_lehman_complete_refuted.v",
-    "C32/P_boost_is_quad_residue_refuted.v", "C32/P_nonvacuous.v",
+    "C32/P_boost_is_quad_residue_refuted.v",
+    "C32/P_totient_bounded.v", "C32/P_carmichael_bounded.v", "C32/P_multiplicative_order_bounded.v", "C32/P_primitive_root_bounded.v",
+    "C32/P_kronecker_bounded.v", "C32/P_is_quad_residue_bounded.v", "C32/P_is_nth_residue_bounded.v", "C32/P_lehman_sound_bounded.v", "C32/P_harmonic_bounded.v", "C32/P_bernoulli_bounded.v",
+    "C32/P_nonvacuous.v",
 ]
 
 # functions that have no Coq model: the driver's oracle is the only check
@@ -330,8 +333,13 @@ def run(ctx):
         "denominators and powm with negative modulus differ and are modelled per configuration)",
         "oracle-only (no Coq model, labelled in evidence): nthroot_mod, nthroot_mod_list, powermod/powermod_list with rational exponent, "
         "primitive_root_list, factor_pollard_rho_method, factor_pollard_pm1_method, nextprime, probab_prime_p, primepi, primorial",
-        "model-tied without a spec theorem: multiplicative_order, primitive_root, carmichael, is_quad_residue, is_nth_residue, "
-        "legendre/jacobi/kronecker, factor_lehman_method, harmonic, bernoulli, mertens (their definitions are checked by the driver's oracle)",
+        "theorems over explicit finite ranges only (complete evaluation of the faithful model against definitions by exhaustive search; "
+        "their general correctness needs cyclic-group theory / quadratic reciprocity not developed here): carmichael, multiplicative_order, "
+        "primitive_root, legendre/jacobi/kronecker, is_quad_residue, is_nth_residue (a >= 0), harmonic, bernoulli, soundness of "
+        "factor_lehman_method, totient = number of coprime residues; beyond those ranges these functions are covered by the "
+        "model/library correspondence and the driver's oracle",
+        "the Newton iteration of mp_boost.cpp's mp_root/mp_sqrt is transcribed (mp_root_boost) and tied to the boost build by correspondence, "
+        "without a correctness theorem; layer 2 uses the bisection root iroot (theorem C32_mp_root) as the meaning of mp_root/mp_sqrt in both configurations",
         "machine-integer parameters (unsigned long n of fibonacci/binomial/factorial/harmonic, unsigned multiplicities) are modelled as "
         "unbounded integers; runs stay far below 2^32",
     ]
